@@ -602,6 +602,8 @@ func mSortSlice(stable bool) modelFn {
 		st.assume(Forall([]Term{k}, Implies(inr(k), And(inr(Select(perm, k)), Eq(Select(inv, Select(perm, k)), k), Eq(newAt(k), oldAt(Select(perm, k))))), []Term{Select(perm, k)}))
 		st.assume(Forall([]Term{k}, Implies(inr(k), Eq(newAt(k), oldAt(Select(perm, k)))), []Term{newAt(k)}))
 		st.assume(Forall([]Term{k}, Implies(inr(k), And(inr(Select(inv, k)), Eq(Select(perm, Select(inv, k)), k))), []Term{Select(inv, k)}))
+		// where an old element went (fires on reads of the old contents)
+		st.assume(Forall([]Term{k}, Implies(inr(k), And(inr(Select(inv, k)), Eq(Select(perm, Select(inv, k)), k), Eq(newAt(Select(inv, k)), oldAt(k)))), []Term{oldAt(k)}))
 		// sorted: no element is less than an earlier one
 		lessAt := func(a, b Term) Term { return x.specBool(envAt(st, a, b), rhs) }
 		st.assume(Forall([]Term{p, q}, Implies(And(inr(p), inr(q), Lt(p, q)), Not(lessAt(q, p)))))
